@@ -597,6 +597,9 @@ class HierarchyElement(DiagLayer):
         cps = [cp for cp in self.comparam_refs if cp.short_name == cp_short_name]
         if protocol_name is not None:
             cps = [cp for cp in cps if cp.protocol_snref in (None, protocol_name)]
+            # prefer definitions which are specific to the protocol
+            # over the ones that apply to any protocol
+            cps.sort(key=lambda cp: cp.protocol_snref is None)
 
         if len(cps) > 1:
             warnings.warn(
